@@ -139,7 +139,9 @@ func cmdVerify(args []string) int {
 				if len(r.Res.Model) > 0 {
 					var ks []string
 					for k := range r.Res.Model {
-						ks = append(ks, k)
+						if !strings.HasPrefix(k, "(") {
+							ks = append(ks, k)
+						}
 					}
 					sort.Strings(ks)
 					for _, k := range ks {
@@ -166,6 +168,8 @@ func main() {
 	switch os.Args[1] {
 	case "verify":
 		os.Exit(cmdVerify(os.Args[2:]))
+	case "check":
+		os.Exit(cmdCheck(os.Args[2:]))
 	default:
 		fmt.Println("unknown command")
 		os.Exit(2)
